@@ -312,7 +312,9 @@ pub fn rule_slots() -> Vec<Vec<Option<Opt>>> {
             Some(Opt::PathNs(s("/"))),
         ],
         vec![None, Some(Opt::Dest(s(":1.2")))],
-        vec![None, Some(Opt::Arg(0, s("x"))), Some(Opt::Arg(0, s("")))],
+        // (the last value is path-like: it must match a STRING argument with that text and must
+        // not match an object-path argument with that text — argN is for strings only)
+        vec![None, Some(Opt::Arg(0, s("x"))), Some(Opt::Arg(0, s(""))), Some(Opt::Arg(0, s("/a/b")))],
         vec![None, Some(Opt::Arg(1, s("x")))],
         vec![None, Some(Opt::ArgPath(0, s("/a/b"))), Some(Opt::ArgPath(0, s("/")))],
         vec![None, Some(Opt::Arg0Ns(s("a.b")))],
